@@ -196,6 +196,8 @@ func (e *env) judge(class, what string, o outcome, expectAccept *bool) {
 func yes() *bool { b := true; return &b }
 
 func (e *env) run(thorough bool) {
+	// the forgeries against a store that has never seen the GUID
+	e.crafted("fresh:", outcome{})
 	// honest baseline (non-vacuity) and the mutant list shape
 	base := e.attempt(e.honestClient(), nil)
 	e.judge("honest", "baseline", base, yes())
@@ -223,6 +225,12 @@ func (e *env) run(thorough bool) {
 			e.judge("leaf:"+m.Op, m.Path, o, nil)
 		}
 	}
+	e.crafted("", base)
+}
+
+// crafted runs the forgeries that are built from the live honest message. phase "" = the GUID already has an accepted
+// registration in the store; "fresh:" = nothing was ever registered for it (a new deployment).
+func (e *env) crafted(phase string, base outcome) {
 	// every signer of the key ring holding a copy of the voucher
 	ov, _ := e.world.Owner.State.Voucher(context.Background(), e.guid)
 	type signer struct {
@@ -241,24 +249,27 @@ func (e *env) run(thorough bool) {
 	for _, s := range signers {
 		c := &fdo.TO0Client{Vouchers: e.world.Owner.State, OwnerKeys: signerState{key: s.key}}
 		o := e.attempt(c, nil)
-		e.judge("foreign-signer", s.name, o, nil)
+		e.judge(phase+"foreign-signer", s.name, o, nil)
 	}
-	// replay of a previously accepted OwnerSign under a new session (stale nonce)
-	o := e.attempt(e.honestClient(), func([]byte) []byte { return bytes.Clone(base.received) })
-	e.judge("replay", "accepted OwnerSign of an earlier session under a new token", o, nil)
-	// to1d from an earlier session spliced into a fresh to0d (hash no longer matches)
-	o = e.attempt(e.honestClient(), func(body []byte) []byte {
-		cur, _, _ := rc.Parse(body)
-		old, _, _ := rc.Parse(base.received)
-		return rc.Encode(rc.A(cur.Items[0], old.Items[1]))
-	})
-	e.judge("splice", "fresh to0d with the to1d of an earlier session", o, nil)
+	var o outcome
+	if base.received != nil {
+		// replay of a previously accepted OwnerSign under a new session (stale nonce)
+		o = e.attempt(e.honestClient(), func([]byte) []byte { return bytes.Clone(base.received) })
+		e.judge(phase+"replay", "accepted OwnerSign of an earlier session under a new token", o, nil)
+		// to1d from an earlier session spliced into a fresh to0d (hash no longer matches)
+		o = e.attempt(e.honestClient(), func(body []byte) []byte {
+			cur, _, _ := rc.Parse(body)
+			old, _, _ := rc.Parse(base.received)
+			return rc.Encode(rc.A(cur.Items[0], old.Items[1]))
+		})
+		e.judge(phase+"splice", "fresh to0d with the to1d of an earlier session", o, nil)
+	}
 	// voucher truncated to zero entries, blob signed by the manufacturer (the key a zero-entry voucher names)
 	if ov != nil {
 		o = e.attempt(e.honestClient(), func(body []byte) []byte {
 			return e.craft(body, func(v *fdo.Voucher) { v.Entries = nil }, keys.Get(e.kind.Alg, "mfg"), protocol.Sha256Hash)
 		})
-		e.judge("zero-entries", "voucher without entries, blob signed by the manufacturer key", o, nil)
+		e.judge(phase+"zero-entries", "voucher without entries, blob signed by the manufacturer key", o, nil)
 		// entries cut back to the previous owner, who signs the blob (a former owner re-registering)
 		if e.hops >= 2 {
 			roles := []string{"owner2", "owner3"}
@@ -267,13 +278,53 @@ func (e *env) run(thorough bool) {
 				return e.craft(body, func(v *fdo.Voucher) { v.Entries = v.Entries[:len(v.Entries)-1] }, prevOwner, 0)
 			})
 			// this IS a valid registration by the owner named by the shortened voucher: the reference decides
-			e.judge("shortened-chain", "voucher cut back by one entry and blob signed by that earlier owner", o, nil)
+			e.judge(phase+"shortened-chain", "voucher cut back by one entry and blob signed by that earlier owner", o, nil)
+		}
+		// forged vouchers: a stranger holding a copy of the (already registered) voucher rewrites it so that it names
+		// the stranger, keeps every signature byte, recomputes the to0d hash and signs the blob with the named key
+		for _, who := range []string{"stranger", "mfg", "owner2"} {
+			fk := keys.Get(e.kind.Alg, who)
+			fpk, err := lab.EncodePublicKey(e.kind.Type, protocol.X509KeyEnc, fk.Public(), nil)
+			if err != nil {
+				continue
+			}
+			for ei := 0; ei < e.hops; ei++ {
+				if ei != e.hops-1 && ei != 0 {
+					continue
+				}
+				o = e.attempt(e.honestClient(), func(body []byte) []byte {
+					return e.craft(body, func(v *fdo.Voucher) {
+						if ei < len(v.Entries) && v.Entries[ei].Payload != nil {
+							v.Entries[ei].Payload.Val.PublicKey = *fpk
+						}
+					}, fk, 0)
+				})
+				e.judge(phase+"forged-entry-key", fmt.Sprintf("entry %d of %d names the %s key (signatures untouched), blob signed by that key", ei, e.hops, who), o, nil)
+			}
+			// the last entry duplicated, the duplicate naming the forger (an extension nobody signed)
+			o = e.attempt(e.honestClient(), func(body []byte) []byte {
+				return e.craft(body, func(v *fdo.Voucher) {
+					if n := len(v.Entries); n > 0 && v.Entries[n-1].Payload != nil {
+						dup := v.Entries[n-1]
+						pl := *dup.Payload
+						pl.Val.PublicKey = *fpk
+						dup.Payload = &pl
+						v.Entries = append(v.Entries, dup)
+					}
+				}, fk, 0)
+			})
+			e.judge(phase+"forged-extension", "last entry duplicated with the "+who+" key as next owner (old signature), blob signed by that key", o, nil)
+			// the manufacturer key in the header replaced by the forger's (header MAC is the device's business, not the server's)
+			o = e.attempt(e.honestClient(), func(body []byte) []byte {
+				return e.craft(body, func(v *fdo.Voucher) { v.Header.Val.ManufacturerKey = *fpk; v.Entries = nil }, fk, 0)
+			})
+			e.judge(phase+"forged-header-key", "header names the "+who+" key as manufacturer, no entries, blob signed by that key", o, nil)
 		}
 		// honest content but the to0d hash computed with the other hash algorithm
 		o = e.attempt(e.honestClient(), func(body []byte) []byte {
 			return e.craft(body, func(*fdo.Voucher) {}, e.world.Owner.OwnerSigner(e.kind), -1)
 		})
-		e.judge("other-hash-alg", "to0d hash computed with the other supported algorithm", o, nil)
+		e.judge(phase+"other-hash-alg", "to0d hash computed with the other supported algorithm", o, nil)
 	}
 }
 
